@@ -34,6 +34,38 @@ theorem c27_add_to_sections {κ : Type} [DecidableEq κ] (secs : List (Nat × κ
     expandRuns (addToSections secs k n) = expandRuns secs ++ List.replicate n k :=
   expandRuns_addToSections secs k n
 
+/-- what parsing records for a sequence of sections, each of one kind with its items: one `add_to_sections` per section -/
+def record {κ α : Type} [DecidableEq κ] (sections : List (κ × List α)) : List (Nat × κ) :=
+  sections.foldl (fun secs (p : κ × List α) => addToSections secs p.1 p.2.length) []
+
+/-- the items of the component in order, each with its kind -/
+def itemsOf {κ α : Type} (sections : List (κ × List α)) : List (κ × α) :=
+  sections.flatMap (fun (p : κ × List α) => p.2.map (fun a => (p.1, a)))
+
+theorem expandRuns_record {κ α : Type} [DecidableEq κ] (sections : List (κ × List α)) :
+    ∀ (acc : List (Nat × κ)),
+      expandRuns (sections.foldl (fun secs (p : κ × List α) => addToSections secs p.1 p.2.length) acc)
+        = expandRuns acc ++ (itemsOf sections).map (·.1) := by
+  induction sections with
+  | nil => intro acc; simp [itemsOf]
+  | cons s rest ih =>
+    intro acc
+    simp only [List.foldl_cons]
+    rw [ih, expandRuns_addToSections]
+    simp [itemsOf, List.map_flatMap, Function.comp_def, List.append_assoc, List.map_const']
+
+/-- **record, then replay, is the identity** — for every sequence of sections (any kinds, any sizes, empty sections included,
+    any number of adjacent sections of one kind): parsing them into the per-kind vectors with the run-length list and encoding
+    from those gives back the items in their original order. -/
+theorem c27_record_replay_roundtrip {κ α : Type} [DecidableEq κ] (sections : List (κ × List α)) :
+    replay (store (itemsOf sections)) (record sections) (fun _ => 0) = itemsOf sections := by
+  apply c27_replay_restores_order
+  have := expandRuns_record sections []
+  simpa [record, expandRuns] using this
+
+example : record [(0, [10]), (1, [11]), (0, [12]), (0, [13, 16]), (2, ([] : List Nat)), (0, [15])]
+    = [(1, 0), (1, 1), (3, 0), (0, 2), (1, 0)] := by decide
+
 /-! non-vacuity (decided): depth 3 — the shape of the repaired defect F21: the root owns the outer component only; the
     sections that follow the innermost module are not the root's -/
 def exDeep : List Item :=
